@@ -212,6 +212,35 @@ def run(ctx):
         gc.collect()
     core.history_check(ctx, "import numpy as np\nfrom koala import example_graphs as eg, voronization as vz, graph_utils as gu, quasicrystals as qc, phase_diagrams as pdg, hamiltonian as ham\nfrom koala.flux_finder import flux_finder as ff\n\ndef _canon(l):\n    parts = [l.vertices.positions.ravel(), l.edges.indices.ravel().astype(float), l.edges.crossing.ravel().astype(float)]\n    return np.concatenate(parts)\ndef _plaq(l):\n    out = []\n    for p in l.plaquettes:\n        out += [float(len(p.edges))] + [float(x) for x in p.edges] + [float(x) for x in p.directions] + [float(x) for x in p.vertices] + [float(x) for x in p.center]\n    return np.array(out)\n_pts = np.random.default_rng(123).uniform(size=(14, 2))\n", ["ff.fluxes_from_ujk(vz.generate_lattice(_pts), 1 - 2 * (np.arange(42) % 3 == 0))", "ff.fluxes_from_ujk(eg.honeycomb_lattice(3), np.ones(54, dtype=int), real=False)"],
                        label="flux call")
+    # ---- other operations on a freshly built lattice *before* its plaquettes are first computed: the fluxes are those of an untouched twin
+    from koala import graph_utils as gu
+    from koala.lattice import Lattice, cut_boundaries
+    for name, fam, l in cases[:: max(1, len(cases) // (12 if ctx.tier == "quick" else 80))]:
+        P, E, C = zoo.raw(l)
+        u = (1 - 2 * rng.integers(0, 2, size=len(E))).astype(np.int8)
+        try:
+            want = ff.fluxes_from_ujk(Lattice(P.copy(), E.copy(), C.copy()), u)
+        except Exception:
+            continue
+        near = np.nonzero(np.any((P < 0.1) | (P > 0.9), axis=1))[0]
+        for oname, op in (("vertices_to_polygon (vertices near the cell walls)", lambda x: gu.vertices_to_polygon(x, near if len(near) else None)), ("vertices_to_polygon (all)", lambda x: gu.vertices_to_polygon(x)),
+                          ("cut_boundaries", lambda x: cut_boundaries(x)), ("remove_trailing_edges", lambda x: gu.remove_trailing_edges(x)), ("vertex_neighbours / clockwise", lambda x: [gu.clockwise_edges_about(v, x) for v in range(min(4, x.n_vertices))])):
+            lt = Lattice(P.copy(), E.copy(), C.copy())
+            try:
+                import warnings as _w
+                with _w.catch_warnings():
+                    _w.simplefilter("ignore")
+                    op(lt)
+            except Exception:
+                continue
+            try:
+                got = ff.fluxes_from_ujk(lt, u)
+            except Exception as ex:
+                ctx.impl_violation(f"{name}: fluxes_from_ujk raised {type(ex).__name__}: {ex} on a lattice on which {oname} had been called first", dict(case=name, lattice=zoo.lat_to_json(l), u=u.tolist(), before=oname)); break
+            if len(got) != len(want) or not np.array_equal(got, want):
+                ctx.impl_violation(f"{name}: the fluxes of a freshly built lattice differ ({len(got)} values) from those of an untouched twin ({len(want)}) when {oname} is called on it before its plaquettes are first computed",
+                                   dict(case=name, lattice=zoo.lat_to_json(l), u=u.tolist(), before=oname)); break
+        ctx.case((name, "operations before the first plaquette access"), nontrivial=True)
     # ---- a lattice with more than 65 536 edges (and fewer vertices): bond indices beyond 16 bits.  Judged without the plaquettes' own edge lists: a flipped
     #      bond changes exactly two fluxes, both of plaquettes through its two end points; gauge moves change nothing; the global product is (-1)^E
     try:
